@@ -564,6 +564,7 @@ pub mod harness {
             let mut max_logs = 0usize;
             let mut sample = String::new();
             let mut returned: BTreeSet<String> = BTreeSet::new();
+            let mut values: BTreeSet<String> = BTreeSet::new();
             let (mut crosschecks, mut unpruned_executions, mut crosscheck_ok) = (0u64, 0u64, true);
             // laziness: construct and drop without polling — nothing may be evaluated
             {
@@ -666,6 +667,7 @@ pub mod harness {
                         }
                         let st = explore(p.mk, p.gates, p.spurious, p.cap, p.prune, &inv, |ex, script| {
                             outcomes.insert((ex.value.clone(), ex.log.clone()));
+                            values.insert(format!("{:?}|{:?}", row, ex.value));
                             let mut msg: Option<String> = None;
                             if ex.divergence {
                                 msg = Some("MACHINERY: divergence while replaying a decision prefix".into());
@@ -754,7 +756,7 @@ pub mod harness {
             }
             writeln!(
                 out,
-                "{{\"id\":{},\"rows\":{},\"executions\":{},\"decisions\":{},\"states\":{},\"outcomes\":{},\"max_logs_per_row\":{},\"capped\":{},\"ohash\":\"{:x}\",\"nviol\":{},\"viols\":[{}],\"sample\":{},\"failures_returned\":{},\"crosschecks\":{},\"crosscheck_ok\":{},\"unpruned_executions\":{},\"ms\":{}}}",
+                "{{\"id\":{},\"rows\":{},\"executions\":{},\"decisions\":{},\"states\":{},\"outcomes\":{},\"max_logs_per_row\":{},\"capped\":{},\"ohash\":\"{:x}\",\"nviol\":{},\"viols\":[{}],\"sample\":{},\"failures_returned\":{},\"vhash\":\"{:x}\",\"nvalues\":{},\"crosschecks\":{},\"crosscheck_ok\":{},\"unpruned_executions\":{},\"ms\":{}}}",
                 jesc(p.id),
                 nrows,
                 executions,
@@ -773,6 +775,13 @@ pub mod harness {
                 viols.join(","),
                 if sample.is_empty() { "null".to_string() } else { sample },
                 returned.len(),
+                {
+                    use std::hash::{Hash, Hasher};
+                    let mut h = std::collections::hash_map::DefaultHasher::new();
+                    values.hash(&mut h);
+                    h.finish()
+                },
+                values.len(),
                 crosschecks,
                 crosscheck_ok,
                 unpruned_executions,
